@@ -12,7 +12,7 @@ Section MarkupProofs.
   | mk_text b x : kind_eqb (bk b) KSpace = false -> kind_eqb (bk b) KText = true ->
                   (x = [] \/ x = [AText (into_text (bt b))]) -> markup_child b x
   | mk_expr b c x : kind_eqb (bk b) KSpace = false -> kind_eqb (bk b) KText = false -> is_expr (bt b) = true ->
-                    child_atoms b (RExpr c) x -> markup_child b x
+                    child_atoms b (RExprEmb c) x -> markup_child b x
   | mk_comment b d x : is_comment_b b = true -> comment swidth (bt b) = Ok d -> seqs d x -> markup_child b x
   | mk_other b x : kind_eqb (bk b) KSpace = false -> kind_eqb (bk b) KText = false -> is_expr (bt b) = false ->
                    is_comment_b b = false -> (x = [] \/ x = [AText (tx b)]) -> markup_child b x.
@@ -21,7 +21,7 @@ Section MarkupProofs.
     (fun (d : doc) (node : bundle) =>
        x <- (if kind_eqb (bk node) KSpace then ret space
              else if kind_eqb (bk node) KText then ret (convert_verbatim swidth (bt node))
-             else if is_expr (bt node) then call node (RExpr (if mixed then suppress_breaks c else c))
+             else if is_expr (bt node) then call node (RExprEmb (if mixed then suppress_breaks c else c))
              else if is_comment_b node then convert_comment swidth node
              else ret (convert_trivia swidth (bt node))) ;;
        ret (append d x)).
